@@ -31,7 +31,8 @@ Record authz := {
   az_redirect : string;         (* "" = parameter not sent *)
   az_scopes : list string;      (* requested *)
   az_granted : list string;     (* granted by the resource owner (integrator) *)
-  az_aud : list aurl;           (* requested = granted audience *)
+  az_aud : list aurl;           (* requested audience *)
+  az_gaud : list aurl;          (* audience granted by the integrator *)
   az_subject : string;
   az_challenge : string;
   az_method : string
@@ -108,10 +109,7 @@ Definition pkce_token (cfg : config) (s : state) (cl : client) (key : option nat
       let s1 := set_store s (delete_pkce (st s) k) in
       let challenge := r_challenge pr in
       let method := r_method pr in
-      match clients s (r_client pr) with
-      | None => (s1, Some "server_error")
-      | Some pcl =>
-          match pkce_validate cfg challenge method pcl with
+          match pkce_validate cfg challenge method (r_cl pr) with
           | Some e => (s1, Some e)
           | None =>
               let nv := String.length verifier in
@@ -125,7 +123,6 @@ Definition pkce_token (cfg : config) (s : state) (cl : client) (key : option nat
                      (if String.eqb verifier_s256 challenge then (s1, None) else (s1, Some "invalid_grant"))
               else (if String.eqb verifier challenge then (s1, None) else (s1, Some "invalid_grant"))
           end
-      end
   | _, _ =>
       if Nat.eqb (String.length verifier) 0 then (s, pkce_no_pkce cfg cl)
       else (s, Some "invalid_grant")
@@ -145,8 +142,8 @@ Definition authorize (cfg : config) (s : state) (a : authz) : state * obs :=
         let (rid, s2) := fresh_rid s1 in
         let se := {| s_subject := az_subject a; s_exp_code := Some (now s + cf_life_code cfg)%Z;
                      s_exp_at := None; s_exp_rt := None |} in
-        let r := {| r_id := rid; r_client := az_client a; r_rscopes := az_scopes a; r_gscopes := az_granted a;
-                    r_raud := az_aud a; r_gaud := az_aud a; r_sess := se; r_redirect := az_redirect a;
+        let r := {| r_id := rid; r_client := az_client a; r_cl := cl; r_rscopes := az_scopes a; r_gscopes := az_granted a;
+                    r_raud := az_aud a; r_gaud := az_gaud a; r_sess := se; r_redirect := az_redirect a;
                     r_challenge := ""; r_method := ""; r_at := now s |} in
         let s3 := set_store s2 (create_code (st s2) k r) in
         (* pkce.Handler.HandleAuthorizeEndpointRequest (runs last) *)
@@ -156,8 +153,8 @@ Definition authorize (cfg : config) (s : state) (a : authz) : state * obs :=
             let s4 :=
               if String.eqb (az_challenge a) "" && String.eqb (az_method a) "" then s3
               else set_store s3 (create_pkce (st s3) k
-                     {| r_id := rid; r_client := az_client a; r_rscopes := az_scopes a; r_gscopes := az_granted a;
-                        r_raud := az_aud a; r_gaud := az_aud a; r_sess := se; r_redirect := "";
+                     {| r_id := rid; r_client := az_client a; r_cl := cl; r_rscopes := az_scopes a; r_gscopes := az_granted a;
+                        r_raud := az_aud a; r_gaud := az_gaud a; r_sess := se; r_redirect := "";
                         r_challenge := az_challenge a; r_method := az_method a; r_at := now s |}) in
             (log_add s4 [{| i_kind := KCode; i_key := k; i_rid := rid; i_endpoint_token := false |}],
              ok_obs [KCode] 0%Z [])
@@ -198,10 +195,10 @@ Definition redeem (cfg : config) (s : state) (auth : option nat) (code : pres) (
                 if expired (s_exp_code se) (now s1) (cf_life_code cfg) (now s1) then fail s1 "invalid_request"
                 else
                   let (ka, s2) := mint s1 in
-                  let stored := {| r_id := r_id r; r_client := c; r_rscopes := r_rscopes r; r_gscopes := r_gscopes r;
+                  let stored := {| r_id := r_id r; r_client := c; r_cl := cl; r_rscopes := r_rscopes r; r_gscopes := r_gscopes r;
                                    r_raud := r_raud r; r_gaud := r_gaud r; r_sess := se; r_redirect := "";
                                    r_challenge := ""; r_method := ""; r_at := now s |} in
-                  if can_refresh cfg (r_gscopes r) cl then
+                  if can_refresh cfg (r_gscopes r) (r_cl r) then
                     let (kr, s3) := mint s2 in
                     let st1 := fst (invalidate_code (st s3) (match key with Some k => k | None => 0 end)) in
                     let st2 := create_access st1 ka stored in
@@ -248,7 +245,7 @@ Definition refresh_flow (cfg : config) (s : state) (auth : option nat) (tok : pr
           else if negb (aud_ok cfg (cl_aud cl) (r_gaud r)) then fail s "invalid_request"
           else
             let se := set_token_expiries cfg (now s) (r_sess r) in
-            let stored := {| r_id := r_id r; r_client := c; r_rscopes := r_rscopes r; r_gscopes := r_gscopes r;
+            let stored := {| r_id := r_id r; r_client := c; r_cl := cl; r_rscopes := r_rscopes r; r_gscopes := r_gscopes r;
                              r_raud := r_raud r; r_gaud := r_gaud r; r_sess := se; r_redirect := "";
                              r_challenge := ""; r_method := ""; r_at := now s |} in
             (* PopulateTokenEndpointResponse *)
